@@ -172,6 +172,9 @@ pub struct Shared {
     /// trace mode: outcomes are drawn from this generator instead of the offset schedule, and recorded
     pub random: Option<rand::rngs::StdRng>,
     pub events: Vec<Value>,
+    /// replay mode: the implementation asked the transport for fewer bytes than the schedule delivers at this point
+    /// (how much is requested in one read is the implementation's choice): the behaviour cannot be forced onto it
+    pub unsteered: Option<String>,
 }
 
 impl Shared {
@@ -239,7 +242,11 @@ impl AsyncRead for MockIo {
             return Poll::Pending;
         }
         let next_cut = s.rcuts.range(at + 1..).next().copied().unwrap_or(usize::MAX);
-        let n = buf.len().min(avail).min(next_cut - at);
+        let sched = avail.min(next_cut - at);
+        if buf.len() < sched && s.unsteered.is_none() && !s.rcuts.is_empty() {
+            s.unsteered = Some(format!("read at inbound offset {at}: the implementation asked for {} bytes where the behaviour delivers {sched}", buf.len()));
+        }
+        let n = buf.len().min(sched);
         buf[..n].copy_from_slice(&s.wire[at..at + n]);
         s.in_read += n;
         Poll::Ready(Ok(n))
@@ -455,6 +462,7 @@ pub struct Obs {
 pub struct BehLine { pub c: u64, pub h: Vec<Vec<Value>>, pub obs: Obs }
 
 pub struct RunResult {
+    pub unsteered: Option<String>,
     pub returned: bool,
     pub panicked: Option<String>,
     pub spun: bool,
@@ -510,7 +518,7 @@ pub fn execute_with(case: &Case, h: &[Vec<Value>], random: Option<rand::rngs::St
     let shared = Arc::new(Mutex::new(Shared {
         wire: case.bytes.clone(), gates: case.scen.gates.clone(), close: case.scen.close, fault: case.scen.fault.clone(),
         in_read: 0, rcuts, rpend, out: Vec::new(), wcuts, wpend, self_wake: false, stop_at, stop_now: false,
-        parked_on_read: false, write_failed: false, wrote_after_failure: false, reads: 0, writes: 0, random, events: Vec::new(),
+        parked_on_read: false, write_failed: false, wrote_after_failure: false, reads: 0, writes: 0, random, events: Vec::new(), unsteered: None,
     }));
     // the connection limit equals the number of tokens handed out below (MAX_CONNS - 1 spare tokens are held by the
     // harness), so the connection's own token is the last permit: nobody else can get one while run() is in progress
@@ -547,7 +555,7 @@ pub fn execute_with(case: &Case, h: &[Vec<Value>], random: Option<rand::rngs::St
     let io_w = MockIo(shared.clone());
     let flag = Arc::new(FlagWaker(AtomicBool::new(false)));
     let waker: Waker = flag.clone().into();
-    let mut res = RunResult { returned: false, panicked: None, spun: false, parked_on_read: false, in_read: 0, out: Vec::new(), log: Vec::new(), calls: 0, wrote_after_failure: false, polls: 0, permit_early: None, permit_stuck: false };
+    let mut res = RunResult { unsteered: None, returned: false, panicked: None, spun: false, parked_on_read: false, in_read: 0, out: Vec::new(), log: Vec::new(), calls: 0, wrote_after_failure: false, polls: 0, permit_early: None, permit_stuck: false };
     if stop_first { if let Some(r) = runner.take() { drop(r.shutdown()); } }
     let mut permit_early: Option<String> = None;
     let outcome = catch_unwind(AssertUnwindSafe(|| {
@@ -591,6 +599,7 @@ pub fn execute_with(case: &Case, h: &[Vec<Value>], random: Option<rand::rngs::St
     let s = shared.lock().unwrap_or_else(std::sync::PoisonError::into_inner);
     res.parked_on_read = !res.returned && s.parked_on_read;
     res.in_read = s.in_read;
+    res.unsteered = s.unsteered.clone();
     res.out = s.out.clone();
     res.wrote_after_failure = s.wrote_after_failure;
     let h = hstate.lock().unwrap_or_else(std::sync::PoisonError::into_inner);
@@ -626,7 +635,7 @@ pub fn compare(case: &Case, obs: &Obs, r: &RunResult) -> (Vec<Mismatch>, Vec<Str
         return (mm, drift);
     }
     if r.spun { mm.push(Mismatch { field: "spin", what: format!("connection task was still being woken after {} polls (spinning)", r.polls) }); return (mm, drift); }
-    if r.returned == obs.parked {
+    if r.unsteered.is_none() && r.returned == obs.parked {
         mm.push(Mismatch { field: "returned", what: format!("Token::run {}, specification: {}", if r.returned { "returned" } else { "is suspended" },
             if obs.parked { "suspended waiting for input".to_string() } else { format!("returns ({})", obs.ended) }) });
     }
@@ -642,6 +651,11 @@ pub fn compare(case: &Case, obs: &Obs, r: &RunResult) -> (Vec<Mismatch>, Vec<Str
     if r.wrote_after_failure { mm.push(Mismatch { field: "after-failure", what: "the transport was written to again after a failed write".into() }); }
     if let Some(w) = &r.permit_early { mm.push(Mismatch { field: "permit", what: format!("a request for a token completed while the connection holding the last slot was still running ({w}): more live tokens than max_conns") }); }
     if r.permit_stuck { mm.push(Mismatch { field: "permit", what: "the connection's slot is still taken after Token::run returned".into() }); }
+    if let Some(u) = &r.unsteered {
+        // the model-independent predicates above still apply; the prediction belongs to a different behaviour
+        drift.push(format!("behaviour not followed ({u}); prediction not compared - such executions are decided by trace validation"));
+        return (mm, drift);
+    }
     // outbound bytes
     let mut want = Vec::new();
     let mut reqno = 0usize;
